@@ -109,6 +109,14 @@ def find_cause_pep484585_container_args_1(
         # tensors containing one or more values: e.g.,
         #     RuntimeError: Boolean value of Tensor with more than one value is
         #     ambiguous
+        #
+        # Note also that quasi-iterable hints (e.g., "Iterable[T]",
+        # "Container[T]") are satisfied by objects that are *NOT* collections
+        # (e.g., iterators, generators), which define no __len__() dunder method
+        # and whose items are intentionally left unchecked. Such an object
+        # violates this hint only shallowly (tested above) and thus satisfies
+        # this hint here.
+        not isinstance(cause.pith, Collection) or
         not len(cause.pith) or
         # This child hint is ignorable...
         hint_child_sane is HINT_SANE_IGNORABLE
